@@ -160,7 +160,8 @@ check("C17", "model_checking",
       "RecordsStream (Batch and Single) for record sizes 1,1,2,3,4,8, LengthDelimitedStream and BufferedBytesStream: for every "
       "test buffer (every record count x every truncated tail x an undecodable record at every position, <= 10 (14) bytes) the "
       "explorer enumerates every chunking of the bytes and, deviation-bounded, a Pending answer, an empty chunk or a transport "
-      "error at every poll; the flattened output is compared with a reference parse of the whole buffer. "
+      "error at every poll; the flattened output is compared with a reference parse of the whole buffer; the buffers of <= 8 (10) "
+      "bytes are explored a second time with the environment behind BodyStream, the wrapper every real request body passes through. "
       "states = executions (distinct chunking/deviation sequences); transitions = choice points.",
       [{"name": "parsers", "config": "A", "test": "verif::c17::run",
         "require": {"any": {"streams": 100, "distinct:parsers": 10}}}],
